@@ -24,19 +24,19 @@ NA = {
 
 CHECKS = {
     "C19": {
-        "level": ("fault_enumeration", "Every cut point of the single cache write is a state; the thorough tier enumerates all N-1 byte prefixes of the shipped cache (plus missing/empty/unreadable content, prefixes of a rebuilt file, both BUILD_TZ_CACHE modes), each followed by two real imports in a fresh process; quick samples structural + seeded cut points. Seeded op-level schedules of 2-3 importers over a simulated disk with crash / torn-write / ENOSPC / EIO injection cover the concurrent-import clause; real interpreter launches validate the in-process import; and a real interpreter is killed in the middle of its cache write (seeded cut) before real imports follow, so that whatever a dead writer leaves behind is produced by the tree under test itself.", "4.2 and 0"),
+        "level": ("fault_enumeration", "Every cut point of the single cache write is a state; the thorough tier enumerates all N-1 byte prefixes of the shipped cache (plus missing/empty/unreadable content, prefixes of a rebuilt file, both BUILD_TZ_CACHE modes), each followed by two real imports in a fresh process; quick samples structural + seeded cut points. Seeded op-level schedules of 2-3 importers over a simulated disk with crash / torn-write / ENOSPC / EIO injection cover the concurrent-import clause; real interpreter launches (plain, -O, -B, first import on a worker thread, importer ending with os._exit) validate the in-process import; and a real interpreter is killed in the middle of its cache write (seeded cut) before real imports follow, so that whatever a dead writer leaves behind is produced by the tree under test itself.", "4.2 and 0"),
         "note": "Trusted: a crash/full disk/racing reader leaves a byte prefix of a single writer's stream; tmpfs scratch copy behaves like an installed package; bit flips and multi-writer mixed content are outside the listed states (counted, not judged). Layer b samples schedules, it does not enumerate them.",
         "technique": "deterministic simulation: state-based crash-point enumeration of the cache file + seeded simulated-disk scheduler with fault injection",
         "engine": "simdisk",
     },
     "C14": {
-        "level": ("exploration", "Seeded simulation of the system clock and process zone under the custom-format parser: formats x datetimes x languages rendered by the harness, clock placed on year/month/day boundaries, frozen or ticking per read, 11 process zones; independent oracle for what the format expresses plus clock-derived fields in the process zone.", "4.7"),
+        "level": ("exploration", "Seeded simulation of the system clock and process zone under the custom-format parser: formats x datetimes x languages rendered by the harness, clock placed on year/month/day boundaries, frozen or ticking per read, 11 process zones, year-less %j formats, a RELATIVE_BASE given (must be irrelevant); independent oracle for what the format expresses plus clock-derived fields in the process zone.", "4.7"),
         "note": "Samples inputs and clock placements; an enumerating checker would be stronger on the input-only round-trip clause. Oracle trusts its own strftime-free renderer, the calendar module and pytz for the local fields of the simulated instant; 'current' means the process-local date.",
         "technique": "deterministic simulation: simulated clock (frozen / per-read ticks / boundary placement) and process zone, seeded workload, independent oracle",
         "engine": "clockworld",
     },
     "C10": {
-        "level": ("exploration", "Absolute clause R0 (a strict result only if some token of the harness-generated string can carry each demanded part) plus relational check under pairs of distant simulated clocks and process zones: strict result is None or equals the non-strict result in the same world; a non-None strict result (and each REQUIRE_PARTS part) is identical under both clocks and both RELATIVE_BASE values, for absolute / custom-format / timestamp parsers, partial dates generated from every subset of {day, month, year, weekday, time} in languages drawn from the tree's data.", "4.5"),
+        "level": ("exploration", "Absolute clause R0 (a strict result only if some token of the harness-generated string can carry each demanded part) plus relational check under pairs of distant simulated clocks and process zones: strict result is None or equals the non-strict result in the same world; a non-None strict result (and each REQUIRE_PARTS part) is identical under both clocks and both RELATIVE_BASE values, for absolute / custom-format / timestamp parsers, partial dates generated from every subset of {day, month, year, weekday, time} in languages drawn from the tree's data, plus the multilingual strings of the tree's own test tables (R1-R3 only) and aware reference times with output-zone settings.", "4.5"),
         "note": "R0 is judged only in single-reading pipelines (one language, one parser); R1 value changes in multi-reading pipelines that are explained by a single reading of the same pipeline are a recorded known finding (known_findings.json). Samples strings/languages; two clocks per case.",
         "technique": "deterministic simulation: paired simulated clocks/zones, metamorphic relations across worlds",
         "engine": "clockworld",
@@ -48,19 +48,19 @@ CHECKS = {
         "engine": "clockworld",
     },
     "C12": {
-        "level": ("exploration", "Simulated process zone (TZ) and clock drive TIMEZONE='local' and the relative/timestamp parsers whose instant is known a priori; pytz as independent zone database checks instant preservation, target offset and awareness for absolute / relative / timestamp / custom-format inputs over seeded zone pairs.", "4.6"),
+        "level": ("exploration", "Simulated process zone (TZ) and clock drive TIMEZONE='local' and the relative/timestamp parsers whose instant is known a priori; pytz as independent zone database checks instant preservation, target offset and awareness for absolute / relative (durations, clock times in the phrase, own zone in the phrase, clock route and aware RELATIVE_BASE route) / timestamp / custom-format (with and without %z) inputs over seeded zone pairs, equal pairs included.", "4.6"),
         "note": "pytz tzdata is shared with the library (its code and abbreviation table are not). Years 1950..2037. Gap/ambiguous local times rejected by the generator.",
         "technique": "deterministic simulation: simulated process zone and clock, seeded zone pairs, pytz instant oracle",
         "engine": "clockworld",
     },
     "C03": {
-        "level": ("exploration", "Seeded call histories (parse / DateDataParser slots / search_dates / calendars / failing calls / cache-limit pressure / regex purges / restarts; contrast-mode settings variants and scenario templates T1-T8) run in a fresh process under a frozen simulated clock; every call's outcome is compared with the same call made alone in a fresh process under another hash seed; caller-owned dicts/lists compared before/after. Failing histories are ddmin-minimised and replayed.", "4.1"),
+        "level": ("exploration", "Seeded call histories (parse / DateDataParser slots / search_dates / calendars / failing calls / cache-limit pressure / regex purges / restarts; contrast-mode settings variants and scenario templates T1-T12: live instance x equal settings dict, in-parser exceptions, tl date order, regional vocabulary, detection callback, reused settings dict, time-zone suffixes, the same digits through the Jalali/Hijri/Gregorian parsers, permuted language lists, equal-instant aware RELATIVE_BASE values) run in a fresh process under a frozen simulated clock; every call's outcome is compared with the same call made alone in a fresh process under another hash seed; caller-owned dicts/lists compared before/after. Failing histories are ddmin-minimised and replayed.", "4.1"),
         "note": "Samples histories (length <= 40); oracle says nothing about correctness of an answer, only about history independence.",
         "technique": "deterministic simulation: seeded operation histories with failure/cache-pressure/restart faults against a memoryless fresh-process reference model",
         "engine": "history",
     },
     "C20": {
-        "level": ("exploration", "Real threads under a baton-passing scheduler with sys.settrace line events as pre-emption points: for ordered pairs (A,B) one pre-emption of A at an executed library line, B runs to completion, A resumes (both directions); quick covers every distinct source line once per pair, thorough every dynamic step plus seeded k<=3-switch and 3-thread schedules. Outcomes must equal one of the two sequential orders in a fresh process.", "4.3"),
+        "level": ("exploration", "Real threads under a baton-passing scheduler with sys.settrace line events as pre-emption points: for ordered pairs (A,B) one pre-emption of A at an executed library line, B runs to completion, A resumes (both directions); quick covers every distinct source line once per pair, thorough every dynamic step plus seeded k<=3-switch and 3-thread schedules. Besides the hand-picked pair pool, pairs are drawn from the seeded call generator of C03 (both calls from one generated history); a third of the schedules run on raw _thread threads unknown to the threading module. Outcomes must equal one of the two sequential orders in a fresh process.", "4.3"),
         "note": "Line-level pre-emption under the GIL; no switches inside foreign critical sections or import machinery (under-approximation: may miss, never invents).",
         "technique": "deterministic simulation: controlled thread scheduler (baton-passed real threads, traced pre-emption points), linearizability against sequential runs",
         "engine": "sched",
